@@ -20,7 +20,7 @@ for l in open(vfile):
 notes = open(os.path.join(dst, 'NOTES.md')).read() if os.path.exists(os.path.join(dst, 'NOTES.md')) else ''
 m = re.search(r'(?is)(what is needed[^\n]*\n)(.*?)(\n#|\Z)', notes)
 needs = (m.group(2).strip()[:1200] if m else 'see NOTES.md')
-base = subprocess.check_output(['git', '-C', '/repo', 'log', '--format=%h', '-1']).decode().strip()
+base = subprocess.check_output(['git', '-C', wt, 'log', '--format=%h', '-1']).decode().strip()
 meta = {
     'property': prop,
     'origin': 'written by an independent sub-agent that was given only the property text and a scratch worktree of /repo (nothing from /verif)',
